@@ -546,6 +546,11 @@ func (u *Unit) applyContract(s *State, fc *FuncContract, callee *ssa.Function, n
 			names[n] = args[i]
 		}
 	}
+	if instr != nil && instr.Call.StaticCallee() == nil && !instr.Call.IsInvoke() {
+		if _, isBuiltin := instr.Call.Value.(*ssa.Builtin); !isBuiltin {
+			names["_fn"] = u.val(s, instr.Call.Value) // the function value being called (contracts of `dynamic` callees)
+		}
+	}
 	ord := 0
 	if site != nil {
 		ord = u.ordinal(site)
@@ -723,7 +728,7 @@ func (u *Unit) applyContract(s *State, fc *FuncContract, callee *ssa.Function, n
 				}
 				u.usedEnsures[labelWithFn(c.Label, short)] = true
 			}
-			if !ghostsKnown(c.Expr, s) {
+			if !ghostsKnown(u.p.cs.expandMacros(c.Expr), s) {
 				continue // mentions ghost state private to the callee
 			}
 			g, err := mk(s, pre, extra).formula(c.Expr)
@@ -947,11 +952,17 @@ func (u *Unit) appendOp(s *State, c *ssa.CallCommon, instr *ssa.Call) {
 
 // atCall emits the unit's at-call obligations for a call to the named callee.
 func (u *Unit) atCall(s *State, name string, args []Term, site ssa.Instruction, pos token.Pos) {
-	if u.fc == nil || site == nil || site.Parent() != u.fn {
+	if u.fc == nil || site == nil {
 		return
 	}
+	// a call inside an inlined callee (a function of the module without a contract) is a call made while this function
+	// runs: clauses that do not single out one call site (`#N`) apply to it as well
+	inlined := site.Parent() != u.fn
 	for _, c := range u.fc.Clauses {
 		if c.Kind != "at-call" && c.Kind != "assume-at-call" {
+			continue
+		}
+		if inlined && (c.Kind != "at-call" || strings.Contains(c.Callee, "#")) {
 			continue
 		}
 		want := c.Callee
@@ -992,6 +1003,52 @@ func (u *Unit) atCall(s *State, name string, args []Term, site ssa.Instruction, 
 		}
 		n := fmt.Sprintf("%s.at.%s#%d", labelWithFn(c.Label, u.fnShort(u.fn)), shortCallee(name), u.ordinal(site))
 		u.oblige(s, n, c.Props, "at-call", g, pos)
+	}
+	// set-at-call CALLEE[#N]: $g = expr(a0, a1, ...)  -- ghost bookkeeping of the caller, done after the obligations
+	if inlined {
+		return
+	}
+	for _, c := range u.fc.Clauses {
+		if c.Kind != "set-at-call" {
+			continue
+		}
+		want, wantOrd := c.Callee, 0
+		if i := strings.LastIndex(want, "#"); i > 0 {
+			if n, err := strconv.Atoi(want[i+1:]); err == nil {
+				want, wantOrd = want[:i], n
+			}
+		}
+		if want != name && want != shortCallee(name) && !strings.HasSuffix(shortCallee(name), "."+want) {
+			continue
+		}
+		if wantOrd != 0 && wantOrd != u.ordinal(site) {
+			continue
+		}
+		m := setsRe.FindStringSubmatch(strings.TrimSpace(c.Label + ": " + c.Expr))
+		if m == nil {
+			m = setsRe.FindStringSubmatch(strings.TrimSpace(c.Expr))
+		}
+		if m == nil {
+			panic(abortUnit{fmt.Sprintf("%s:%d: bad set-at-call clause", c.File, c.Line)})
+		}
+		old, ok := s.ghost[m[1]]
+		if !ok {
+			panic(abortUnit{fmt.Sprintf("%s:%d: set-at-call: unknown ghost %s", c.File, c.Line, m[1])})
+		}
+		env := u.bodyEnv(s, u.fn)
+		env.paramsEntry = true
+		for i, a := range args {
+			env.names[fmt.Sprintf("a%d", i)] = a
+		}
+		t, err := env.term(m[2])
+		if err != nil {
+			panic(abortUnit{fmt.Sprintf("%s:%d: %v", c.File, c.Line, err)})
+		}
+		if t.Sort != old.Sort {
+			panic(abortUnit{fmt.Sprintf("%s:%d: set-at-call %s: sort %s, want %s", c.File, c.Line, m[1], t.Sort, old.Sort)})
+		}
+		nv := u.define(s, "ghost", t)
+		s.ghost[m[1]] = Term{S: nv.S, Sort: nv.Sort}
 	}
 }
 
